@@ -42,6 +42,7 @@ where
         unsafe {
             let cloned_value = match *value {
                 Lazy_::Blackhole(..) => return Err(Error::Message("<<loop>>".into())),
+                Lazy_::Failed(ref err) => return Err(Error::Message(err.clone())),
                 Lazy_::Thunk(ref value) => Lazy_::Thunk(deep_cloner.deep_clone(value)?.unrooted()),
                 Lazy_::Value(ref value) => Lazy_::Value(deep_cloner.deep_clone(value)?.unrooted()),
             };
@@ -69,12 +70,14 @@ enum Lazy_ {
     ),
     Thunk(Value),
     Value(Value),
+    // The computation failed, forcing the value again reports the same error
+    Failed(String),
 }
 
 unsafe impl<T> Trace for Lazy<T> {
     impl_trace! { self, gc,
         match &mut *self.value.lock().unwrap() {
-            Lazy_::Blackhole(..) => (),
+            Lazy_::Blackhole(..) | Lazy_::Failed(..) => (),
             Lazy_::Thunk(value) => mark(value, gc),
             Lazy_::Value(value) => mark(value, gc),
         }
@@ -138,7 +141,22 @@ fn force(
                         value.vm_push(&mut vm.current_context()).unwrap();
                         RuntimeResult::Return(Pushed::default())
                     }
-                    Err(err) => RuntimeResult::Panic(format!("{}", err).into()),
+                    Err(err) => {
+                        // Leave the blackhole so that later `force` calls, from any thread, report
+                        // the error instead of waiting forever for a value that will never arrive
+                        let msg = format!("{}", err);
+                        let mut lazy_lock = lazy.value.lock().unwrap();
+                        let waiters = match *lazy_lock {
+                            Lazy_::Blackhole(_, ref mut x) => x.take(),
+                            _ => None,
+                        };
+                        *lazy_lock = Lazy_::Failed(msg.clone());
+                        drop(lazy_lock);
+                        if let Some((sender, _receiver)) = waiters {
+                            let _ = sender.send(());
+                        }
+                        RuntimeResult::Panic(msg.into())
+                    }
                 }
             }))
         }
@@ -160,25 +178,25 @@ fn force(
                 }
                 let ready = opt.as_ref().unwrap().1.clone();
                 let vm = vm.root_thread();
-                Either::Right(Either::Right(
-                    ready
-                        .map(move |_| {
-                            let lazy_lock = lazy.value.lock().unwrap();
-                            match *lazy_lock {
-                                Lazy_::Value(ref value) => {
-                                    vm.current_context().push(value);
-                                    Pushed::default()
-                                }
-                                _ => unreachable!(),
-                            }
-                        })
-                        .map(RuntimeResult::Return),
-                ))
+                Either::Right(Either::Right(ready.map(move |_| {
+                    let lazy_lock = lazy.value.lock().unwrap();
+                    match *lazy_lock {
+                        Lazy_::Value(ref value) => {
+                            vm.current_context().push(value);
+                            RuntimeResult::Return(Pushed::default())
+                        }
+                        Lazy_::Failed(ref err) => RuntimeResult::Panic(Error::Message(err.clone())),
+                        _ => unreachable!(),
+                    }
+                })))
             }
             Lazy_::Value(ref value) => {
                 vm.current_context().push(value);
                 Either::Left(future::ready(RuntimeResult::Return(Pushed::default())))
             }
+            Lazy_::Failed(ref err) => Either::Left(future::ready(RuntimeResult::Panic(
+                Error::Message(err.clone()),
+            ))),
             _ => unreachable!(),
         },
     }
